@@ -18,13 +18,15 @@ Cfg(c, e) == IF e.i = 0 THEN c ELSE CallCfg(c, e.i)
 \* "stress": c.stress.calls repetitions of the case's call, aggregated (CSVCodec!StressAllowed)
 XAllowed(c, e) ==
   IF e.ev = "stress" THEN "stress" \in DOMAIN c /\ ~e.panic /\ StressAllowed(c, c.stress.calls, e)
-  ELSE e.ev = "csv" /\ (e.i > 0 => e.i <= Len(c.calls)) /\ Allowed(Cfg(c, e), e) /\ RpOK(Cfg(c, e), e)
+  ELSE /\ e.ev = "csv" /\ (e.i > 0 => e.i <= Len(c.calls)) /\ Allowed(Cfg(c, e), e) /\ RpOK(Cfg(c, e), e)
+       /\ (e.i > 0 => RetainedOK(c, e.i, e.retained))     \* what the caller kept from earlier calls into the same variable
 
 XWhy(c, e) == IF e.ev = "stress" THEN (IF e.other > 0 THEN "not-the-parsers-error" ELSE "stress-family-outcome")
               ELSE IF e.ev # "csv" THEN "unknown-event"
               ELSE IF ~Allowed(Cfg(c, e), e)
                    THEN (IF e.i > 1 /\ WhyNot(Cfg(c, e), e) \in {"records-differ", "unexpected-error"}
                          THEN "codec-reuse-differs-from-first-call" ELSE WhyNot(Cfg(c, e), e))
+                   ELSE IF e.i > 0 /\ ~RetainedOK(c, e.i, e.retained) THEN "earlier-result-overwritten"
                    ELSE "output-not-csv"
 
 XStep(c, e) == c
